@@ -1,6 +1,7 @@
 //! C11 — pivot search returns an acyclic (triangular) pivot set   [single worker schedule only]
 use crate::ctx::Rel;
 use crate::explore::{Harness, InputSpec};
+use crate::props::c09::RingSel;
 use crate::util::*;
 use crate::vint::{VInt, VIntOps, VF};
 use num_traits::{One, Zero};
@@ -10,6 +11,7 @@ use yui_matrix::sparse::SpMat;
 use yui_matrix::MatTrait;
 
 pub struct Pivots {
+    pub ring: RingSel,
     pub m: usize,
     pub n: usize,
     pub b: i64,
@@ -31,22 +33,39 @@ impl Pivots {
 
 impl Harness for Pivots {
     fn id(&self) -> String {
-        format!("pivots/{}/{:?}/{}x{}/B{}{}", if self.rows { "Rows" } else { "Cols" }, self.cond(), self.m, self.n, self.b, if self.stored_zeros { "/stored0" } else { "" })
+        format!("pivots/{:?}/{}/{:?}/{}x{}/B{}{}", self.ring, if self.rows { "Rows" } else { "Cols" }, self.cond(), self.m, self.n, self.b, if self.stored_zeros { "/stored0" } else { "" })
     }
     fn functions(&self) -> Vec<&'static str> {
         vec!["pivot::{find_pivots,perms_by_pivots}", "PivotFinder::{new,find_pivots,find_fl_pivots,find_fl_col_pivots,find_cycle_free_pivots(_m),result}", "MatrixStr::new / PivotCondition::is_cand",
              "yui::algo::top_sort", "sparse::util::perm_for_indices", "SpMat::permute"]
     }
     fn inputs(&self) -> Vec<InputSpec> {
-        (0..self.m * self.n).map(|k| InputSpec::boxed(&format!("a{}{}", k / self.n, k % self.n), self.b)).collect()
+        let ar = if self.ring == RingSel::ZH { 2 } else { 1 };
+        (0..self.m * self.n * ar).map(|k| InputSpec::boxed(&format!("a{}{}{}", (k / ar) / self.n, (k / ar) % self.n, if ar == 1 { "" } else if k % 2 == 0 { "c" } else { "h" }), self.b)).collect()
     }
     fn body<I: VInt>(&self, xs: &[I])
     where
         for<'x> &'x I: VIntOps<I>,
     {
+        match self.ring {
+            RingSel::Q => self.run::<I, yui::Ratio<I>>(xs),
+            RingSel::ZH => self.run::<I, yui::poly::Poly<'H', I>>(xs),
+            _ => self.run::<I, I>(xs),
+        }
+    }
+}
+
+impl Pivots {
+    fn run<I, R>(&self, xs: &[I])
+    where
+        I: VInt,
+        for<'x> &'x I: VIntOps<I>,
+        R: VRing<I> + nalgebra_scalar::Sc,
+        for<'x> &'x R: RingOps<R>,
+    {
         let (m, n) = (self.m, self.n);
-        let g: Grid<I> = build_grid::<I, I>(m, n, xs);
-        let a: SpMat<I> = if self.stored_zeros {
+        let g: Grid<R> = build_grid::<I, R>(m, n, xs);
+        let a: SpMat<R> = if self.stored_zeros {
             SpMat::from_col_vecs(m, (0..n).map(|j| yui_matrix::sparse::SpVec::from_sorted_entries(m, (0..m).map(|i| (i, g[i][j].clone())))))
         } else {
             grid_to_sp(&g, m, n)
@@ -64,15 +83,18 @@ impl Harness for Pivots {
         I::oblige("pivot columns pairwise distinct", VF::of_bool(cols.len() == r));
         for (k, &(i, j)) in pivs.iter().enumerate() {
             let x = &g[i][j];
-            // unit of Z: x = 1 or x = -1   (One and AnyUnit coincide over Z; Weight(w >= 1) too)
-            I::oblige(&format!("pivot {} satisfies the condition", k), VF::Or(vec![VF::zero(x - &I::one()), VF::zero(x + &I::one())]));
+            // every condition requires at least a unit (One: +-1; over Z and Z[H] the units are +-1; over Q any non-zero)
+            I::oblige(&format!("pivot {} is a unit", k), x.unit_formula());
+            if self.cond == 0 {
+                I::oblige(&format!("pivot {} is +-1", k), VF::Or(vec![is_zero_f::<I, R>(&(x - &R::one())), is_zero_f::<I, R>(&(x + &R::one()))]));
+            }
         }
         // triangularity of the leading block, read off the pivot list directly ...
         for k in 0..r {
             for l in 0..r {
                 let zero_expected = if self.rows { k > l } else { k < l };
                 if zero_expected {
-                    I::oblige(&format!("a[i_{},j_{}] = 0 (triangular)", k, l), VF::zero(g[pivs[k].0][pivs[l].1].clone()));
+                    oblige_zero::<I, R>(&format!("a[i_{},j_{}] = 0 (triangular)", k, l), &g[pivs[k].0][pivs[l].1]);
                 }
             }
         }
@@ -81,11 +103,11 @@ impl Harness for Pivots {
             let (p, q) = perms_by_pivots(&a, &pivs);
             let b = sp_to_grid(&a.permute(p.view(), q.view()));
             for k in 0..r {
-                I::oblige(&format!("permuted diagonal {} is the pivot", k), VF::zero(&b[k][k] - &g[pivs[k].0][pivs[k].1]));
+                oblige_zero::<I, R>(&format!("permuted diagonal {} is the pivot", k), &(&b[k][k] - &g[pivs[k].0][pivs[k].1]));
                 for l in 0..r {
                     let zero_expected = if self.rows { k > l } else { k < l };
                     if zero_expected {
-                        I::oblige(&format!("permuted[{},{}] = 0", k, l), VF::zero(b[k][l].clone()));
+                        oblige_zero::<I, R>(&format!("permuted[{},{}] = 0", k, l), &b[k][l]);
                     }
                 }
             }
@@ -102,19 +124,28 @@ pub fn configs(tier: crate::registry::Tier, _seed: u64) -> Vec<crate::registry::
                 if cond >= 1 && (m, n) == (3, 3) {
                     continue;
                 }
-                v.push(entry(Pivots { m, n, b, rows, cond, stored_zeros: false }, 3000, 90.0));
+                v.push(entry(Pivots { ring: RingSel::Z, m, n, b, rows, cond, stored_zeros: false }, 3000, 90.0));
             }
         }
-        v.push(entry(Pivots { m: 2, n: 2, b: 1, rows, cond: 0, stored_zeros: true }, 500, 30.0));
-        v.push(entry(Pivots { m: 1, n: 3, b: 2, rows, cond: 1, stored_zeros: false }, 500, 30.0));
-        v.push(entry(Pivots { m: 0, n: 2, b: 1, rows, cond: 0, stored_zeros: false }, 5, 5.0));
+        v.push(entry(Pivots { ring: RingSel::Z, m: 2, n: 2, b: 1, rows, cond: 0, stored_zeros: true }, 500, 30.0));
+        v.push(entry(Pivots { ring: RingSel::Z, m: 1, n: 3, b: 2, rows, cond: 1, stored_zeros: false }, 500, 30.0));
+        v.push(entry(Pivots { ring: RingSel::Z, m: 0, n: 2, b: 1, rows, cond: 0, stored_zeros: false }, 5, 5.0));
+    }
+    // rings with other unit groups: Q (every non-zero entry is a unit) and Z[H] (non-PID, units +-1, default c_weight)
+    for ring in [RingSel::Q, RingSel::ZH] {
+        for rows in [true, false] {
+            for cond in 0..4u8 {
+                v.push(entry(Pivots { ring, m: 2, n: 2, b: if ring == RingSel::ZH { 1 } else { 2 }, rows, cond, stored_zeros: false }, 1500, 90.0));
+            }
+            v.push(entry(Pivots { ring, m: 2, n: 3, b: 1, rows, cond: 1, stored_zeros: false }, 1500, 90.0));
+        }
     }
     if tier == Tier::Thorough {
         for rows in [true, false] {
             for cond in [0u8, 3] {
-                v.push(entry(Pivots { m: 3, n: 4, b: 1, rows, cond, stored_zeros: false }, 100000, 1800.0));
-                v.push(entry(Pivots { m: 4, n: 3, b: 1, rows, cond, stored_zeros: false }, 100000, 1800.0));
-                v.push(entry(Pivots { m: 3, n: 3, b: 2, rows, cond, stored_zeros: false }, 100000, 1800.0));
+                v.push(entry(Pivots { ring: RingSel::Z, m: 3, n: 4, b: 1, rows, cond, stored_zeros: false }, 100000, 1800.0));
+                v.push(entry(Pivots { ring: RingSel::Z, m: 4, n: 3, b: 1, rows, cond, stored_zeros: false }, 100000, 1800.0));
+                v.push(entry(Pivots { ring: RingSel::Z, m: 3, n: 3, b: 2, rows, cond, stored_zeros: false }, 100000, 1800.0));
             }
         }
     }
